@@ -11,6 +11,7 @@ import (
 
 	"dsverif/internal/an"
 	"dsverif/internal/core"
+	"golang.org/x/tools/go/cfg"
 	"golang.org/x/tools/go/packages"
 )
 
@@ -50,6 +51,8 @@ func runC17(c *core.Ctx) {
 	c.Rule("R7", "failure cause overwritten by the stopping error only when nil", 1)
 	c.Rule("R8", "manager state decision table and healthy latch", 3)
 	c.Rule("R9", "StopAsync cancels on the result of the atomic switch (a racing start is not lost)", 1)
+	c.Rule("R11", "listener registry keyed by identity: the remove function takes out the channel its AddListener registered", 1)
+	c.Rule("R12", "timer service: an iteration's error is the run function's result on every path", 1)
 	c.Rule("R10", "failure fan-in: every failure report is delivered with a blocking send", 1)
 	pkg := c.Prog.Pkg("services")
 	if pkg == nil {
@@ -161,6 +164,167 @@ func runC17(c *core.Ctx) {
 	c17Manager(c, pkg)
 	c17StopAsync(c, pkg, trans)
 	c17FailureWatcher(c, pkg)
+	c17Listeners(c, pkg)
+	c17Timer(c, pkg)
+}
+
+// c17Listeners (R11): the listener registry is keyed by identity. AddListener registers a channel it
+// has just made, and the only other modification of the registry inside AddListener (the remove
+// function it returns) refers to that very channel — a key computed from the registry's size or
+// anything else could collide after a removal and silence another listener.
+func c17Listeners(c *core.Ctx, pkg *packages.Package) {
+	fn := an.FindFunc(pkg, "BasicService.AddListener")
+	if fn == nil {
+		c.Miss("R11", "func=BasicService.AddListener", "not found")
+		return
+	}
+	c.Analysed(fn.String())
+	type mod struct {
+		in   *an.Fn
+		node ast.Node
+	}
+	var mods []mod
+	bodies := append([]*an.Fn{fn}, fn.AllLits()...)
+	for _, f := range bodies {
+		f := f
+		f.InspectShallow(func(n ast.Node) bool {
+			switch x := n.(type) {
+			case *ast.AssignStmt:
+				for i, l := range x.Lhs {
+					lc := f.Canon(l)
+					if lc == "recv.listeners" || strings.HasPrefix(lc, "recv.listeners[") {
+						if lc == "recv.listeners" && len(x.Rhs) == len(x.Lhs) {
+							switch r := an.Unparen(x.Rhs[i]).(type) {
+							case *ast.CompositeLit:
+								if len(r.Elts) == 0 {
+									continue // creation of an empty registry
+								}
+							case *ast.CallExpr:
+								if an.ObjIs(an.Callee(f.Info(), r), "", "make") {
+									continue
+								}
+							}
+						}
+						mods = append(mods, mod{f, x})
+					}
+				}
+			case *ast.CallExpr:
+				if an.ObjIs(an.Callee(f.Info(), x), "", "delete") && len(x.Args) == 2 && f.Canon(x.Args[0]) == "recv.listeners" {
+					mods = append(mods, mod{f, x})
+				}
+				if an.ObjIs(an.Callee(f.Info(), x), "", "clear") && len(x.Args) == 1 && f.Canon(x.Args[0]) == "recv.listeners" {
+					mods = append(mods, mod{f, x})
+				}
+			}
+			return true
+		})
+	}
+	var reg, rem []mod
+	for _, m := range mods {
+		if m.in == fn {
+			reg = append(reg, m)
+		} else {
+			rem = append(rem, m)
+		}
+	}
+	if len(reg) != 1 || len(rem) != 1 {
+		c.Undec("R11", "func=AddListener:registry", fn.Pos(), fmt.Sprintf("expected one registration in AddListener and one removal in the function it returns, found %d/%d (a lazily created registry or a second bookkeeping structure is not handled)", len(reg), len(rem)))
+		return
+	}
+	// the registered value: a local holding a fresh channel
+	var ch types.Object
+	ast.Inspect(reg[0].node, func(n ast.Node) bool {
+		if id, ok := n.(*ast.Ident); ok && ch == nil {
+			if v, ok := fn.Info().Uses[id].(*types.Var); ok && !v.IsField() {
+				if _, isChan := v.Type().Underlying().(*types.Chan); isChan {
+					if d, ok := fn.SingleDefExpr(v); ok && strings.HasPrefix(fn.Canon(d), "make(chan ") {
+						ch = v
+					}
+				}
+			}
+		}
+		return true
+	})
+	if ch == nil {
+		c.Viol("R11", "func=AddListener:registry", reg[0].node.Pos(), "the value registered is not a channel freshly made in AddListener")
+		return
+	}
+	mentions := false
+	ast.Inspect(rem[0].node, func(n ast.Node) bool {
+		if id, ok := n.(*ast.Ident); ok && rem[0].in.Info().Uses[id] == ch {
+			mentions = true
+		}
+		return true
+	})
+	c.Check(mentions, "R11", "func=AddListener:registry", rem[0].node.Pos(), "the remove function takes out exactly the channel this AddListener call registered (it refers to "+ch.Name()+" itself): registration and removal are keyed by identity", 1)
+}
+
+// c17Timer (R12): a timer service fails with the error of its iteration: after `err := iter(ctx)` with a
+// non-nil error no return that drops that error is reachable, whatever else is tested.
+func c17Timer(c *core.Ctx, pkg *packages.Package) {
+	top := an.FindFunc(pkg, "NewTimerService")
+	if top == nil {
+		c.Miss("R12", "func=NewTimerService", "not found")
+		return
+	}
+	c.Analysed(top.String())
+	var run *an.Fn
+	var iter an.Call
+	for _, call := range top.Calls(true) {
+		if v, ok := call.Callee.(*types.Var); ok && call.In != top && top.Canon(call.Expr.Fun) == "p2" || ok && v != nil && call.In != top && call.In.Canon(call.Expr.Fun) == "p2" {
+			run, iter = call.In, call
+		}
+	}
+	if run == nil {
+		c.Undec("R12", "func=NewTimerService:iteration", top.Pos(), "call of the iteration function inside the run closure not found")
+		return
+	}
+	g := run.Graph()
+	st, _ := stmtOf(run, iter.Expr).(*ast.AssignStmt)
+	if st == nil || len(st.Lhs) != 1 {
+		c.Undec("R12", "func=NewTimerService:iteration", iter.Expr.Pos(), "the iteration's error is not bound to a variable")
+		return
+	}
+	errObj := run.ObjOf(st.Lhs[0])
+	var silent []an.Loc
+	for _, b := range g.Blocks {
+		r := an.ReturnOf(b)
+		if r == nil || len(r.Results) != 1 {
+			continue
+		}
+		mentions := false
+		ast.Inspect(r.Results[0], func(n ast.Node) bool {
+			if id, ok := n.(*ast.Ident); ok && run.Info().Uses[id] == errObj {
+				mentions = true
+			}
+			return true
+		})
+		if !mentions {
+			silent = append(silent, g.Locate(r))
+		}
+	}
+	var loop ast.Stmt
+	run.InspectShallow(func(n ast.Node) bool {
+		if fs, ok := n.(*ast.ForStmt); ok && an.InNode(fs, iter.Expr) {
+			loop = fs
+		}
+		return true
+	})
+	var header *cfg.Block
+	if loop != nil {
+		header, _, _ = g.LoopBlocks(loop)
+	}
+	IC := run.Canon(iter.Expr)
+	t := an.Table{G: g, From: g.LocAfter(st), MayOnly: true, FreeUnknown: true, Opts: an.ExecOpts{Header: header}, Atoms: []an.Atom{{Name: "ok", Values: []string{"T", "F"}}},
+		Binder: &an.Binder{Fn: run, Eq: map[string]string{IC + "|nil": "ok"}}, Targets: silent,
+		Want: func(r an.Row, _ int) an.Tri {
+			if r["ok"] == "F" {
+				return an.F
+			}
+			return an.U
+		}}
+	res := t.Run()
+	c.Check(res.OK(), "R12", "func=NewTimerService:iteration", iter.Expr.Pos(), fmt.Sprintf("when an iteration returns an error the run function returns it on every path (%d returns that do not carry it are unreachable then), whatever else is tested: %s", len(silent), res.Summary()), res.Rows)
 }
 
 func fieldOf(t *types.Named, name string) *types.Var {
